@@ -229,7 +229,128 @@ func evalC07(c c07Case) *Failure {
 	return nil
 }
 
-func init() { register("c07.case", evalC07) }
+// c07Concurrent: clients on goroutines of their own (no lock step): one issues commands that the framework composes from
+// other commands, one writes, a witness must keep getting exact replies; nobody may stall.
+type c07Concurrent struct {
+	Readers [][]string `json:"readers"` // the composed / reading commands, issued round-robin
+	Writers [][]string `json:"writers"`
+	Rounds  int        `json:"rounds"`
+	Clients int        `json:"clients"` // reader and writer connections (each kind)
+}
+
+func evalC07Concurrent(c c07Concurrent) *Failure {
+	srv := exserver.NewServer().Server
+	n := 2*c.Clients + 1
+	m, err := connsim.NewMulti(srv, n, serveTimeout())
+	if err != nil {
+		return failf("harness|multi", "opening connections: %v", err)
+	}
+	what := fmt.Sprintf("%d reader and %d writer connections on goroutines of their own, %d rounds; readers %v, writers %v", c.Clients, c.Clients, c.Rounds, c.Readers, c.Writers)
+	for _, s := range c07Setup {
+		if _, _, err := m.Step(n-1, resp.Cmd(s...).Bytes()); err != nil {
+			return failf("harness|setup", "setup: %v", err)
+		}
+	}
+	type res struct {
+		who string
+		err error
+	}
+	done := make(chan res, n)
+	run := func(i int, who string, cmds [][]string) {
+		for r := 0; r < c.Rounds; r++ {
+			cmd := cmds[(r+i)%len(cmds)]
+			frames, alive, err := m.Step(i, resp.Cmd(cmd...).Bytes())
+			if err != nil {
+				done <- res{who, fmt.Errorf("%v got no reply: %v", cmd, err)}
+				return
+			}
+			if o := m.Outcome(i); o != nil && o.Panic != nil {
+				done <- res{who, fmt.Errorf("panic: %v", o.Panic)}
+				return
+			}
+			if !alive || len(frames) != 1 {
+				done <- res{who, fmt.Errorf("%v got %d replies (alive %v)", cmd, len(frames), alive)}
+				return
+			}
+			if who == "witness" && !sameText(frames[0], resp.B(cmd[1])) {
+				done <- res{who, fmt.Errorf("%v answered %s", cmd, frames[0])}
+				return
+			}
+		}
+		done <- res{who, nil}
+	}
+	for i := 0; i < c.Clients; i++ {
+		go run(i, "reader", c.Readers)
+		go run(c.Clients+i, "writer", c.Writers)
+	}
+	go run(n-1, "witness", [][]string{{"ECHO", "tok-a"}, {"ECHO", "tok-b"}})
+	var first *res
+	for i := 0; i < n; i++ {
+		r := <-done
+		if r.err != nil && first == nil {
+			rr := r
+			first = &rr
+		}
+	}
+	if first != nil {
+		if strings.Contains(first.err.Error(), "got no reply") {
+			return failf("c07|concurrent|stall", "%s: the %s: %v", what, first.who, first.err)
+		}
+		return failf("c07|concurrent|"+first.who, "%s: the %s: %v", what, first.who, first.err)
+	}
+	m.CloseAll()
+	return nil
+}
+
+// c07Churn: very many connections that end badly, one after the other, on ONE server; afterwards a fresh client is served.
+type c07Churn struct {
+	N     int      `json:"n"`
+	Modes []string `json:"modes"` // malformed | mid-request | reset-after-request, cycled
+}
+
+func evalC07Churn(c c07Churn) *Failure {
+	srv := exserver.NewServer().Server
+	what := fmt.Sprintf("%d connections ending with %v, one after the other", c.N, c.Modes)
+	for i := 0; i < c.N; i++ {
+		var data []byte
+		switch c.Modes[i%len(c.Modes)] {
+		case "malformed":
+			data = []byte("*1\r\n$-x\r\n")
+		case "mid-request":
+			data = []byte("*2\r\n$3\r\nGET\r\n$5\r\nab")
+		default:
+			data = append(resp.Cmd("PING").Bytes(), []byte("*1\r\n$4\r\nPI")...)
+		}
+		conn := connsim.NewPreloaded(i, [][]byte{data})
+		conn.FullClose = true
+		o := connsim.Serve(srv, conn, serveTimeout())
+		if o.TimedOut {
+			return stallFailure("c07|churn", fmt.Sprintf("%s: connection %d", what, i))
+		}
+		if o.Panic != nil {
+			return failf("c07|panic|"+panicKey(o), "%s: connection %d: panic: %v", what, i, o.Panic)
+		}
+	}
+	conn := connsim.NewPreloaded(c.N, [][]byte{resp.Cmd("ECHO", "after-the-churn").Bytes()})
+	o := connsim.Serve(srv, conn, serveTimeout())
+	if o.TimedOut {
+		return stallFailure("c07|churn", what+": the fresh client")
+	}
+	frames, _, _ := conn.Frames()
+	if len(frames) != 1 || !sameText(frames[0], resp.B("after-the-churn")) {
+		return failf("c07|witness-disturbed", "%s: a fresh client then sent ECHO and received %v", what, frames)
+	}
+	if n := len(srv.Conns()); n != 0 {
+		return failf("c07|churn|registry", "%s: %d connections are still registered", what, n)
+	}
+	return nil
+}
+
+func init() {
+	register("c07.case", evalC07)
+	register("c07.concurrent", evalC07Concurrent)
+	register("c07.churn", evalC07Churn)
+}
 
 var c07Ints = []int{0, 1, -1, 2, -2, 3, 4, -3, -4, 5, math.MaxInt32, math.MaxInt32 + 1, math.MinInt32, math.MaxInt64, math.MaxInt64 - 1, math.MinInt64, math.MinInt64 + 1, 1000000, -1000000}
 var c07Floats = []string{"", "(", "((1", "0", "1", "-1", "2", "3", "(1", "(3", "-inf", "+inf", "inf", "1e308", "-1e308", "1e-320", "(-inf", "(+inf", "nan", "NaN", "4"}
@@ -732,9 +853,34 @@ func TestC07(t *testing.T) {
 		"{0,+-1,+-2,len-1,len,len+1,+-2^31,2^63-1,-2^63}, inverted and empty ranges, negative counts and LIMITs, empty strings; grammar instances of every command; empty/null/nested/non-array frames; nesting around the parser's depth limit; mutated frames; "+
 		"disconnect at a random item. A WITNESS connection on the same server is interleaved item by item (SET/GET/ECHO with unique tokens). Oracle: no panic escapes any connection loop, no stall, every witness reply exact, offender output well-formed. "+
 		"Child-process tier: a fixed list of ~50 dangerous requests (allocation bombs, extreme counts, 8M-deep nesting, a concurrent same-hash HSET/HDEL/HGETALL burst of 8 clients) against the example server as a separate process under RLIMIT_AS=8GiB: process alive, still accepting, witness exact. "+
+		"CONCURRENT: reader connections issuing commands the framework composes from other commands, writer connections and a witness, each on a goroutine of its own - nobody may stall. CHURN: 12000 (thorough 70000) connections ending with a malformed frame, inside a request or after a request, one after the other on one server, then a fresh client must be served. "+
 		"Non-trivial: the offender stream holds a boundary argument or malformed frame and the witness issued a request after it (always the case). Distinct = distinct case.")
 	defer h.Finish()
 	h.Probes()
+
+	// clients on goroutines of their own: composed/reading commands against writers, a witness in between
+	h.Rapid("concurrent", h.N(12, 400), func(rt *rapid.T) {
+		c := c07Concurrent{Rounds: rapid.SampledFrom([]int{20, 60, 200}).Draw(rt, "rounds"), Clients: rapid.IntRange(1, 3).Draw(rt, "clients")}
+		readers := [][]string{{"STRLEN", "str"}, {"SUBSTR", "str", "0", "1"}, {"HLEN", "hash"}, {"HKEYS", "hash"}, {"HVALS", "hash"}, {"HEXISTS", "hash", "f"}, {"HSTRLEN", "hash", "f"}, {"GETRANGE", "str", "0", "-1"},
+			{"MGET", "str", "num"}, {"KEYS", "*"}, {"SCAN", "0"}, {"LRANGE", "list", "0", "-1"}, {"SMEMBERS", "set"}, {"ZRANGE", "zset", "0", "-1"}, {"ZREVRANGE", "zset", "0", "-1"}, {"EXISTS", "str"}, {"TYPE", "str"}}
+		writers := [][]string{{"SET", "str", "abc"}, {"APPEND", "str", "x"}, {"HSET", "hash", "f", "v"}, {"INCR", "n"}, {"MSET", "a", "1", "b", "2"}, {"LPUSH", "list", "z"}, {"SADD", "set", "c"}, {"ZADD", "zset", "4", "d"}, {"DEL", "a"}, {"RENAME", "b", "c"}}
+		for i, k := 0, rapid.IntRange(1, 4).Draw(rt, "nr"); i < k; i++ {
+			c.Readers = append(c.Readers, rapid.SampledFrom(readers).Draw(rt, "reader"))
+		}
+		for i, k := 0, rapid.IntRange(1, 3).Draw(rt, "nw"); i < k; i++ {
+			c.Writers = append(c.Writers, rapid.SampledFrom(writers).Draw(rt, "writer"))
+		}
+		h.Col.Case(true, []byte(fmt.Sprint("concurrent", c)), "concurrent-clients")
+		h.Fail(rt, "c07.concurrent", c, evalC07Concurrent(c))
+	})
+
+	// state that accumulates over very many connections of one server
+	if h.Shard == h.NShards-1 {
+		for _, c := range []c07Churn{{N: h.N(12000, 70000), Modes: []string{"malformed", "mid-request", "reset-after-request"}}, {N: h.N(3000, 20000), Modes: []string{"malformed"}}} {
+			h.Col.Case(true, []byte(fmt.Sprint("churn", c)), "connection-churn")
+			h.Report("c07.churn", c, evalC07Churn(c))
+		}
+	}
 
 	if h.Shard == 0 {
 		list := c07ChildList()
